@@ -1,7 +1,113 @@
 import IbModel.Util.Wire
-/-! Driver handlers for C03 (request kinds served for that property). -/
+import IbModel.Driver.PipeParse
+/-! Driver handlers for C03: `PLAN` (pass-by-pass shapes on synthetic chains), `PLANX` (execution of
+    literal vs optimised synthetic chains), `EXPLAIN` (node kinds of the optimised builder chain). -/
 namespace IB.D03
+open IB IB.Wire IB.PipeParse
 
-def handlers : List (String × (List String → String)) := []
+def rowsOf? (s : String) : Option (List Val) :=
+  if s == "-" then some []
+  else (s.splitOn ",").mapM (fun r => match r.splitOn ":" with
+    | [k, v] => do pure (Val.pair (.int (← parseInt? k)) (.int (← parseInt? v)))
+    | _ => none)
+
+def sumList (v : Val) : Int := (v.toList.map Val.toInt).foldl (· + ·) 0
+
+def customApply (code : Char) (arg : Int) : Part → Part :=
+  if code == 'A' then List.map (fun r => .pair r.key (.int (r.value.toInt + arg)))
+  else if code == 'M' then List.map (fun r => .pair r.key (.int (r.value.toInt * arg)))
+  else if code == 'F' then List.filter (fun r => r.value.toInt % (max arg 1) != 0)
+  else if code == 'K' then List.map (fun r => .pair (.int (r.key.toInt + arg)) r.value)
+  else if code == 'D' then List.flatMap (fun r => [r, r])
+  else if code == 'G' then List.map (fun r => .pair r.key (.int (sumList r.value)))
+  else if code == 'H' then List.filter (fun r => r.key.toInt % 2 == 0)
+  else id
+
+def bit? (c : Char) : Option Bool := if c == '1' then some true else if c == '0' then some false else none
+
+/-- `A1/111/3` -/
+def op? (s : String) : Option (DynOp Part) :=
+  match s.splitOn "/" with
+  | [ca, flags, cost] =>
+    match ca.toList, flags.toList with
+    | code :: argcs, [a, b, c] => do
+      let arg ← parseInt? (String.ofList argcs)
+      let kp ← bit? a
+      let vo ← bit? b
+      let rs ← bit? c
+      let cost ← parseNat? cost
+      pure { apply := customApply code arg, keyPreserving := kp, valueOnly := vo, reorderSafe := rs,
+             cost := cost, label := ca }
+    | _, _ => none
+  | _ => none
+
+def node? : List String → Option (Node Part)
+  | ["SRC", rows] => (rowsOf? rows).map vecSource
+  | ["ST", ops] => ((ops.splitOn ";").mapM op?).map Node.stateless
+  | ["GBK"] => some gbkNode
+  | ["CVL"] => some (combineValuesLiftedNode Comb.sum.toCombiner)
+  | ["CV"] => some (combineValuesNode Comb.sum.toCombiner)
+  | ["MAT", rows] => (rowsOf? rows).map Node.materialized
+  | _ => none
+
+/-- split a token list at `|` -/
+def splitBar : List String → List (List String)
+  | [] => [[]]
+  | t :: ts =>
+    match splitBar ts with
+    | g :: gs => if t == "|" then [] :: g :: gs else (t :: g) :: gs
+    | [] => [[t]]
+
+def chain? (toks : List String) : Option (List (Node Part)) := (splitBar toks).mapM node?
+
+def shapeOf (c : List (Node Part)) : String :=
+  ",".intercalate (c.map (fun n => match n with
+    | .source .. => "SRC"
+    | .stateless ops => "ST[" ++ ";".intercalate (ops.map (·.label)) ++ "]"
+    | .gbk .. => "GBK"
+    | .combineValues _ lg _ => if lg.isSome then "CVL" else "CV"
+    | .coGroup .. => "COGROUP"
+    | .combineGlobal .. => "CG"
+    | .materialized _ => "MAT"))
+
+def handlePlan (toks : List String) : String :=
+  match chain? toks with
+  | none => "BAD-OP"
+  | some c =>
+    let f := fuse c
+    let r := reorder f
+    let l := liftGbk r
+    let d := dropMid l
+    s!"fuse={shapeOf f} reorder={shapeOf r} lift={shapeOf l} drop={shapeOf d}"
+
+def insPair (x : Int × Int) : List (Int × Int) → List (Int × Int)
+  | [] => [x]
+  | y :: ys => if x.1 < y.1 || (x.1 == y.1 && x.2 ≤ y.2) then x :: y :: ys else y :: insPair x ys
+
+def execAnswer (r : M Part) : String :=
+  match r with
+  | .ok rows =>
+    if rows.isEmpty then "-"
+    else
+      let ps := (rows.map (fun r => (r.key.toInt, r.value.toInt))).foldl (fun acc x => insPair x acc) []
+      ",".intercalate (ps.map (fun p => s!"{p.1}:{p.2}"))
+  | .error .unexpectedSource => "ERR:unexpected_additional_source/materialized"
+  | .error _ => "PANIC"
+
+def handlePlanx : List String → String
+  | p :: toks =>
+    match parseNat? (p.drop 6).toString, chain? toks with
+    | some parts, some c =>
+      s!"lit={execAnswer (execSeq c)} opt={execAnswer (execSeq (optimise c))} par={execAnswer (execPar List.flatten (optimise c) parts)}"
+    | _, _ => "BAD-OP"
+  | _ => "BAD-OP"
+
+def handleExplain (toks : List String) : String :=
+  match parseReq toks with
+  | none => "BAD-OP"
+  | some q => ",".intercalate ((optimise (litChain q.src q.steps)).map Node.kind)
+
+def handlers : List (String × (List String → String)) :=
+  [("PLAN", handlePlan), ("PLANX", handlePlanx), ("EXPLAIN", handleExplain)]
 
 end IB.D03
